@@ -20,6 +20,7 @@ import (
 	tmversion "github.com/tendermint/tendermint/proto/tendermint/version"
 	rpchttp "github.com/tendermint/tendermint/rpc/client/http"
 	ctypes "github.com/tendermint/tendermint/rpc/core/types"
+	sm "github.com/tendermint/tendermint/state"
 	"github.com/tendermint/tendermint/types"
 	"github.com/tendermint/tendermint/version"
 )
@@ -118,4 +119,16 @@ func VP_C14_StateProvider() {
 	vp.Assert(bytes.Equal(st.NextValidators.Hash(), blocks[h+1].NextValidatorsHash) && bytes.Equal(st.NextValidators.Hash(), blocks[h+2].ValidatorsHash), "C14.provider.next-validators-are-the-light-verified-set")
 	vp.Assert(bytes.Equal(st.AppHash, blocks[h+1].AppHash) && bytes.Equal(st.LastResultsHash, blocks[h+1].LastResultsHash) && st.LastBlockHeight == h, "C14.provider.hashes-and-height-are-the-verified-ones")
 	vp.Reach("state-built")
+	// what the node does next (node.startStateSync): the state store is bootstrapped from this state;
+	// afterwards the store serves exactly the verified sets and parameters for H, H+1 and H+2
+	store := sm.NewStore(dbm.NewMemDB(), sm.StoreOptions{})
+	vp.Assert(store.Bootstrap(st) == nil, "C14.bootstrap.state-store-accepts-the-provider's-state")
+	for d := int64(0); d <= 2; d++ {
+		vs, err := store.LoadValidators(h + d)
+		vp.Assert(err == nil && bytes.Equal(vs.Hash(), blocks[h+d].ValidatorsHash), "C14.bootstrap.state-store-serves-the-light-verified-validator-set-of-each-height")
+	}
+	cp, err := store.LoadConsensusParams(h + 1)
+	vp.Assert(err == nil && bytes.Equal(types.HashConsensusParams(cp), blocks[h+1].ConsensusHash), "C14.bootstrap.state-store-serves-the-verified-parameters")
+	loaded, err := store.Load()
+	vp.Assert(err == nil && loaded.LastBlockHeight == h && bytes.Equal(loaded.AppHash, st.AppHash), "C14.bootstrap.stored-state-is-the-provider's-state")
 }
